@@ -147,6 +147,8 @@ Example framing_nonvacuous :
   /\ dechunk 9 [51; 13; 10; 120; 121; 122; 13; 10; 48; 13; 10; 13; 10]%N = ([120; 121; 122]%N, true, false)
   /\ dechunk 9 [51; 13; 10; 120; 121]%N = ([120; 121]%N, false, false)
   /\ dechunk 9 [51; 59; 97; 13; 10; 120]%N = ([], false, true)
+  /\ dechunk 9 (h2_upload_as_h1 [[120; 121; 122]%N; []] true true) = ([120; 121; 122]%N, true, false)
+  /\ dechunk 9 (h2_upload_as_h1 [[120; 121; 122]%N; []] true false) = ([120; 121; 122]%N, false, false)
   /\ r_sent (relay_run 2 (relay_init [1; 2; 3]%N) [Ingest 5; Convert 1; Flush 9; Flush 1]) = [1]%N
   /\ h2_prepare 10 5%Z 3 [BChunk [1; 2; 3; 4; 5; 6; 7]%N; BEnd]
      = ([mkF [1; 2; 3]%N 0 false; mkF [4; 5]%N 0 false], [BChunk [6; 7]%N; BEnd], 0%Z)
